@@ -1,5 +1,6 @@
 import JoblibModel.ParallelProto
 import JoblibModel.IOUtil
+import JoblibModel.AutoBatch
 /-! Line protocol for M1 (shared by the C01/C04/C09/C16 drivers): a scenario of harness/ctl.py as a flat list of
 integers (see `Scenario.tokens`) → the model's event log joined by ` | `. -/
 namespace JoblibModel.ParallelDriver
@@ -53,7 +54,26 @@ def parseScenario (toks : List Int) : Option (Cfg × List CallSpec × List (List
     | _ => none
   | _ => none
 
+/-- `AB c | d <batch_size> <num> <den> …` : a run of the auto-batching state machine → the batch sizes returned. -/
+def parseAB : List String → Option (List AutoBatch.Op)
+  | [] => some []
+  | "c" :: r => (parseAB r).map (AutoBatch.Op.compute :: ·)
+  | "d" :: b :: n :: d :: r => do
+    let b ← b.toNat?
+    let n ← n.toNat?
+    let d ← d.toNat?
+    if d = 0 then none
+    let rest ← parseAB r
+    pure (AutoBatch.Op.completed b ⟨n, d⟩ :: rest)
+  | _ => none
+
 def handle (line : String) : String :=
+  match tokens line with
+  | "AB" :: r =>
+    match parseAB r with
+    | some ops => joinSp ((AutoBatch.run {} ops).map toString)
+    | none => "bad-op"
+  | _ =>
   match (tokens line).mapM (·.toInt?) with
   | none => "bad-op"
   | some toks =>
